@@ -27,6 +27,8 @@ SECTIONS = {
 
 IGNORABLES = ["sources", "outputs", "attachments", "metadata", "id", "details"]
 DIFF_OPTS = IGNORABLES + ["color_words", "Ignore"]
+# the git-facing diff sections add the counterpart of --use-filter (class GitDiff in nbdime/config.py)
+GITDIFF_OPTS = DIFF_OPTS + ["use_filter"]
 MERGE_OPTS = DIFF_OPTS + ["merge_strategy", "input_strategy", "output_strategy", "ignore_transients"]
 WEB_OPTS = ["port", "ip", "base_url", "browser", "persist", "workdirectory"]
 SHOW_OPTS = IGNORABLES + ["Ignore"]
@@ -35,9 +37,9 @@ SHOW_OPTS = IGNORABLES + ["Ignore"]
 SECTION_OPTS = {
     "Global": ["log_level"],
     "Web": WEB_OPTS, "WebTool": WEB_OPTS,
-    "Diff": DIFF_OPTS, "GitDiff": DIFF_OPTS, "Merge": MERGE_OPTS, "GitMerge": MERGE_OPTS,
-    "NbDiff": DIFF_OPTS, "NbDiffDriver": DIFF_OPTS, "Extension": DIFF_OPTS,
-    "NbDiffWeb": DIFF_OPTS + WEB_OPTS, "NbDiffTool": DIFF_OPTS + WEB_OPTS,
+    "Diff": DIFF_OPTS, "GitDiff": GITDIFF_OPTS, "Merge": MERGE_OPTS, "GitMerge": MERGE_OPTS,
+    "NbDiff": GITDIFF_OPTS, "NbDiffDriver": GITDIFF_OPTS, "Extension": GITDIFF_OPTS,
+    "NbDiffWeb": GITDIFF_OPTS + WEB_OPTS, "NbDiffTool": GITDIFF_OPTS + WEB_OPTS,
     "NbMerge": MERGE_OPTS, "NbMergeDriver": MERGE_OPTS,
     "NbMergeWeb": MERGE_OPTS + WEB_OPTS + ["show_base"], "NbMergeTool": MERGE_OPTS + WEB_OPTS,
     "NbShow": SHOW_OPTS, "Server": WEB_OPTS,
@@ -46,7 +48,7 @@ SECTION_OPTS = {
 DEFAULTS = {
     "log_level": "INFO", "port": 0, "ip": "127.0.0.1", "base_url": "/", "browser": None, "persist": False,
     "workdirectory": "<cwd>", "color_words": False, "merge_strategy": "inline", "input_strategy": None,
-    "output_strategy": None, "ignore_transients": True, "show_base": True, "Ignore": {},
+    "output_strategy": None, "ignore_transients": True, "show_base": True, "Ignore": {}, "use_filter": False,
     "sources": None, "outputs": None, "attachments": None, "metadata": None, "id": None, "details": None,
 }
 ENTRY_DEFAULT_OVERRIDES = {"server": {"port": 8888}}
@@ -58,7 +60,7 @@ DOMAINS = {
     "color_words": [True, False], "merge_strategy": ["inline", "use-base", "use-local", "use-remote"],
     "input_strategy": ["inline", "use-base", "use-local", "use-remote"],
     "output_strategy": ["inline", "use-base", "use-local", "use-remote", "remove", "clear-all"],
-    "ignore_transients": [True, False], "show_base": [True, False],
+    "ignore_transients": [True, False], "show_base": [True, False], "use_filter": [True, False],
     "sources": [True, False], "outputs": [True, False], "attachments": [True, False], "metadata": [True, False],
     "id": [True, False], "details": [True, False],
 }
